@@ -19,6 +19,7 @@ From Coq Require Import ZArith List Bool.
 From FT Require Import Base.Dict Model.Edit Model.EditExec Proofs.EditInv Proofs.EditSeg Proofs.EditFresh Proofs.EditSegExample.
 From FT Require Proofs.EditWFEdge.
 From FT Require Gen.History_gen Proofs.HistoryGen Props.C02.
+From FT Require Proofs.EditBook Proofs.EditWFNode.
 Import ListNotations.
 Open Scope Z_scope.
 
@@ -93,6 +94,18 @@ Theorem C08_history_is_generated : forall st a dA,
    end).
 Proof. exact FT.Props.C02.C02_edit_machine_uses_generated. Qed.
 
+(* ---- the same with the node calls: every state reachable from a well-formed state by any sequence, of
+        any length, of UserAddNode / UserDeleteNode / edge-level calls (accepted or refused) satisfies the
+        complete invariant WF, provided each UserAddNode respects its documented preconditions at the moment
+        it is made (op_pre: integer time / track id, no caller-supplied lineage id, and - with a
+        segmentation - a non-zero id and pixels of the node's own frame that are background; the three
+        accepted-but-invariant-breaking calls of Proofs/EditWFNodeExample.v show each part is needed) ---- *)
+Theorem C08_run_node_calls : forall ops st,
+  forallb EditWFNode.node_fragment ops = true -> WF st -> EditBook.rp_disjoint st ->
+  (forall pre o post, ops = pre ++ o :: post -> EditWFNode.op_pre (run st pre) o) ->
+  WF (run st ops).
+Proof. exact EditWFNode.run_node_WF. Qed.
+
 Example C08_ex0_fresh :
   seg ex0 = Some sg0 /\ rp_fresh ex0 /\ W_seg ex0 /\ nodes_sane ex0 sg0 /\
   ~ In KTime (rp_act (ft ex0)) /\ ~ In KTrack (rp_act (ft ex0)) /\ ~ In KLin (rp_act (ft ex0)) /\
@@ -135,3 +148,4 @@ Print Assumptions C08_fresh_other.
 Print Assumptions C08_run_edge_calls.
 Print Assumptions C08_run_edge_attr_calls.
 Print Assumptions C08_history_is_generated.
+Print Assumptions C08_run_node_calls.
